@@ -234,6 +234,9 @@ def build_corpus():
     lp.lp_packet.congestion_mark = 1
     lp.lp_packet.fragment = data
     c['lp-data'] = bytes(lp.encode())
+    c['data-u-longer'] = bytes(enc.make_data('/u/x', enc.MetaInfo(freshness_period=10), b'u', DigestSha256Signer()))
+    # a Nack header on something that is not an Interest: not a Nack, and not a Data delivery either
+    c['lp-nack-data'] = ts.tlv(0x64, ts.tlv(0x0320, ts.tlv(0x0321, b'\x96')) + ts.tlv(0x50, data))
     c['lp-no-fragment'] = ts.tlv(0x64, ts.tlv(0x62, b'\x09'))
     c['lp-empty'] = ts.tlv(0x64, b'')
     c['lp-empty-fragment'] = ts.tlv(0x64, ts.tlv(0x50, b''))
@@ -357,6 +360,11 @@ def mutation_space(tier, which):
         for name, w in cp.items():
             for k, m in enumerate(tlv_edits(w)):
                 yield f'{name}-edit{k}', m
+    elif which == 'glued':
+        # a delivered unit is one packet: bytes after the outer element (garbage, or a second packet in the same datagram)
+        for name, w in cp.items():
+            for tlabel, tail in (('00', b'\x00'), ('data', cp['data']), ('interest', cp['interest']), ('ff' * 3, b'\xff\xff\xff')):
+                yield f'{name}+{tlabel}', w + tail
     elif which == 'short':
         yield 'empty', b''
         for a in range(256):
@@ -415,6 +423,8 @@ class Victim:
         self.pend = {
             't-exact': ('/t/a', False, None), 't-prefix': ('/t', True, None), 't-digest': ('/t/a', False, dsha),
             'bystander': ('/bystander/long/name/x', False, None),
+            # two Interests on one name, the one allowing longer names expressed first
+            'u-prefix': ('/u', True, None), 'u-exact': ('/u', False, None),
         }
         if fe_name == 'v2':
             async def val(name, sig, ctx):
@@ -454,6 +464,57 @@ class Victim:
             self.loop.__exit__(None, None, None)
 
 
+def legitimate_completions(blob, v):
+    """{pending key: 'data' | 'nack'} this delivered unit may legitimately cause; None = no claim (contested zone / the known
+    over-tolerance of nested lengths, which is C07's finding)"""
+    from checks import c07
+
+    def no_claim(res):
+        return (res[0] == 'reject' and res[1] == 'overrun|in=model') or (res[0] == 'ok' and res[2])
+    inner, nack = blob, None
+    if blob[:1] == b'\x64':
+        r = c07.ref_decode('lp', blob)
+        if no_claim(r):
+            return None
+        if r[0] == 'reject':
+            return {}
+        inner, nack = r[1]['fragment'], r[1]['nack']
+        if inner is None:
+            return {}
+    names = {}
+    for key, (uri, cbp, dg) in v.pend.items():
+        comps = [bytes(c) for c in enc.Name.from_str(uri)]
+        names[key] = (comps, cbp, dg)
+    out = {}
+    if nack is not None:
+        ri = c07.ref_decode('interest', inner)
+        if no_claim(ri):
+            return None
+        if ri[0] == 'reject':
+            return {}
+        nm = [bytes(c) for c in ri[1]['name']]
+        for key, (comps, cbp, dg) in names.items():
+            full = comps + ([ts.tlv(1, dg)] if dg is not None else [])
+            if nm == full:
+                out[key] = 'nack'
+        return out
+    if inner[:1] != b'\x06':
+        return {}
+    rd = c07.ref_decode('data', inner)
+    if no_claim(rd):
+        return None
+    if rd[0] == 'reject':
+        return {}
+    nm = [bytes(c) for c in rd[1]['name']]
+    for key, (comps, cbp, dg) in names.items():
+        if dg is not None:
+            if nm == comps and hashlib.sha256(inner).digest() == dg:
+                out[key] = 'data'
+        elif nm == comps or (cbp and nm[:len(comps)] == comps):
+            out[key] = 'data'
+    return out
+
+
 def run_robust(fe_name, blob: bytes):
     """returns (violations, summary)"""
     viol = []
@@ -481,6 +542,15 @@ def run_robust(fe_name, blob: bytes):
                                  f'handler {v.handled} invoked for {blob[:24].hex()}... (len {len(blob)}) whose parameters digest is wrong or missing'))
             except ts.Malformed:
                 pass
+        # a pending Interest may be completed only by a packet that the reference reader accepts and that addresses it
+        allowed = legitimate_completions(blob, v)
+        if allowed is not None:
+            for key in v.pend:
+                o = v.outcomes.get(key)
+                if o is not None and o.split(':')[0] in ('data', 'nack') and allowed.get(key) != o.split(':')[0]:
+                    viol.append((f"C06|robust|{fe_name}|pending-interest-completed-by-illegitimate-packet|{o.split(':')[0]}",
+                                 f'pending Interest {key} finished with {o} after {blob[:24].hex()}... (len {len(blob)}), which the reference '
+                                 f'reader does not accept as a packet addressing it (legitimate: {allowed})'))
         mid_fail = loop.task_failures(ignore=set(v.callers.values()))
         for f in mid_fail:
             viol.append((f"C06|robust|{fe_name}|task-error|{f['exception']}@{f['where']}",
@@ -523,7 +593,7 @@ def plan(tier, seed):
     for lo in range(0, nfr, ch):
         units.append({'kind': 'framing', 'lo': lo, 'hi': min(nfr, lo + ch), 'tier': tier, 'd': 1 if tier == 'quick' else 2})
     sizes = {'framing_cases': nfr}
-    for which in ('subst', 'trunc', 'edits', 'short', 'alpha', 'long'):
+    for which in ('subst', 'trunc', 'edits', 'short', 'alpha', 'long', 'glued'):
         n = sum(1 for _ in mutation_space(tier, which))
         sizes[which] = n
         chunk = 2500
